@@ -2,7 +2,7 @@
    at most one task is inside transport.send_all and at most one inside transport.recv_into, for every trace and
    every oracle. *)
 From Coq Require Import ZArith List Bool Lia ZifyBool.
-From EN Require Import Lib.Bytes Conc.TlsBase Conc.TlsPump Gen.ParamsC08 Proofs.C08_proofs.
+From EN Require Import Lib.Bytes Conc.TlsBase Conc.TlsPump Proofs.Tls_tactics Proofs.C08_proofs.
 
 Definition is_sending (p : pc) : bool := match p with PSending _ => true | _ => false end.
 Definition is_recving (p : pc) : bool := match p with PRecving => true | _ => false end.
@@ -33,12 +33,43 @@ Proof.
   - specialize (IH _ _ Hn Hf). unfold count in *. cbn. destruct (f (t_pc x)); cbn; lia.
 Qed.
 
-Lemma after_flush_not_locked : forall m s k,
-  is_sending (after_flush m s k) = false /\ is_recving (after_flush m s k) = false.
-Proof. intros m s k. destruct k; cbn; auto. unfold pcall. destruct m; auto. destruct (deque s); auto. Qed.
+Section LockFacts.
+Variable fl : flags.
+Notation flush_pc := (flush_pc fl).
+Notation pcall := (pcall fl).
+Notation after_flush := (after_flush fl).
+Notation go := (go fl).
+Notation step := (step fl).
+Notation settle_n := (settle_n fl).
+Notation settle := (settle fl).
+Notation sys_step := (sys_step fl).
+Notation sys_exec := (sys_exec fl).
+Notation step_send_is_wbio := (step_send_is_wbio fl).
+Notation recv_only_from_recvwait := (recv_only_from_recvwait fl).
+Notation step_flow := (step_flow fl).
+
+Lemma flush_pc_not_locked : forall s k, is_sending (flush_pc s k) = false /\ is_recving (flush_pc s k) = false.
+Proof. intros s k. destruct k; flush_cases; cbn; auto. Qed.
 
 Lemma pcall_not_locked : forall m s, is_sending (pcall m s) = false /\ is_recving (pcall m s) = false.
-Proof. intros m s. unfold pcall. destruct m; auto. destruct (deque s); auto. Qed.
+Proof. intros m s. unfold pcall. destruct m; auto. destruct (deque s); auto. apply flush_pc_not_locked. Qed.
+
+Lemma after_flush_not_locked : forall m s k,
+  is_sending (after_flush m s k) = false /\ is_recving (after_flush m s k) = false.
+Proof. intros m s k. destruct k; cbn; auto. apply pcall_not_locked. Qed.
+
+Ltac fl :=
+  repeat match goal with
+  | |- context [flush_pc ?s ?k] =>
+      let A := fresh "A" in let B := fresh "B" in
+      destruct (flush_pc_not_locked s k) as [A B]; rewrite ?A, ?B; clear A B
+  end.
+
+Ltac inv_fl H :=
+  repeat match type of H with
+  | context [flush_pc ?s ?k] => let f := fresh "fp" in let E := fresh "Efp" in remember (flush_pc s k) as f eqn:E
+  end;
+  inversion H; subst.
 
 (* one step of one task moves it into / out of a critical section exactly when it takes / releases the lock *)
 Lemma step_locks : forall m b s p l s' p' a,
@@ -52,10 +83,10 @@ Proof.
   destruct p as [ | k | k | sn | | r]; destruct l as [x | | t]; cbv beta iota delta [step] in H; try discriminate.
   - destruct (negb _); [inversion H; subst; cbn; lia |].
     cbv zeta in H. destruct (a_out x).
-    + destruct m; try (inversion H; subst; cbn; lia);
+    + destruct m; try (inv_fl H; fl; cbn; lia);
       try (match type of H with context [match ?d with [] => Some _ | _ :: _ => Some _ end] => destruct d end;
-           inversion H; subst; cbn; lia).
-    + inversion H; subst; cbn; lia.
+           inv_fl H; fl; cbn; lia).
+    + inv_fl H; fl; cbn; lia.
     + inversion H; subst; cbn; lia.
     + inversion H; subst; cbn; lia.
     + inversion H; subst; cbn; lia.
@@ -137,3 +168,5 @@ Proof.
     rewrite Ir. cbv beta iota delta [step] in St. unfold go in St.
     destruct (recv_lock (y_sh y)); [discriminate | reflexivity].
 Qed.
+
+End LockFacts.
